@@ -434,6 +434,44 @@ func rulesC05(e *Engine, r *Report) {
 				"the refill does not reach back to the part's file time or is cut off at less than 30 days: "+strings.Join(facts, "; "), 1, facts...)
 		}
 	}
+	// ---------------------------------------------------------------- R05.16
+	r.Rule("R05.16", "recovery does not take a delivered version for a new arrival: Recover enters a staged body (.full, or a complete .part it has promoted) as `received` - overwriting whatever the receive log has just put into the cache for that path - only on paths where the cache knows nothing of the path, or a state before `finalized`, or another hash; what is left of a duplicate that was being discarded when the receiver went down is thrown away, not validated, logged and moved a second time")
+	if top := needFn(e, r, "R05.16", "stage.(*Stage).Recover"); top != nil {
+		n := 0
+		for _, fn := range WithClosures(top) {
+			for _, in := range e.findInstrs(fn, "call(stage.(*Stage).toCache)(«\\^?p0», §, "+sc.received+")", false) {
+				n++
+				x := e.Canon(in.(*ssa.Call).Call.Args[1])
+				known := "call(stage.(*Stage).fromCache)(«\\^?p0», " + x + ".path)"
+				cls := labeler(
+					C("("+known+" == nil)", "unknown"),
+					C("("+known+".state < "+sc.finalized+")", "undelivered"),
+					C("("+sc.finalized+" > "+known+".state)", "undelivered"),
+					C("("+known+".hash != "+x+".hash)", "otherHash"),
+					C("("+x+".hash != "+known+".hash)", "otherHash"),
+				)
+				e.Guarded(r, "R05.16", fmt.Sprintf("%s: toCache(received) #%d not for a version already delivered", e.ShortName(fn), n), fn, only(in), cls,
+					func(l LabelSet) bool { return l.HasAny("unknown", "undelivered", "otherHash") }, "cache lookup: unknown | state < finalized | other hash")
+			}
+		}
+		r.Min("R05.16", "toCache(received) sites in Recover", n, 1)
+	}
+	// ---------------------------------------------------------------- R05.17
+	r.Rule("R05.17", "one record per delivery attempt chain: the deliverer writes the receive-log record only for a file whose `logged` stamp is still zero and stamps it right after - the move that follows can fail and is tried again with the same object, and only a crash, not a retry, may repeat the record")
+	if fn := needFn(e, r, "R05.17", "stage.(*Stage).putFileAway"); fn != nil {
+		rec := "invoke(sts.ReceiveLogger.Received)(p0.logger, p1)"
+		cls := labeler(C("call(time.(Time).IsZero)(p1.logged)", "unstamped"))
+		n := e.Guarded(r, "R05.17", "stage.(*Stage).putFileAway: the record is written for an unstamped file only", fn, e.instrMatch(rec), cls,
+			func(l LabelSet) bool { return l.Has("unstamped") }, "file.logged.IsZero()")
+		r.Min("R05.17", "receive-log writes in the deliverer", n, 1)
+		// ... and the stamp follows before the move
+		for _, in := range e.findInstrs(fn, rec, false) {
+			cls2 := labeler(I("store(p1.logged = §)", "stamped"))
+			res := e.Flow(fn, FlowOpts{Classify: cls2, StartAfter: in, Target: e.instrMatch("call(fileutil.Move)(§)")})
+			e.judge(r, "R05.17", "stage.(*Stage).putFileAway: the stamp is set between the record and the move", fn, res,
+				func(l LabelSet) bool { return l.Has("stamped") }, "store of file.logged")
+		}
+	}
 }
 
 func nameOr(m map[string]string, k string) string {
